@@ -110,6 +110,12 @@ def run(ctx):
         n = rng.randint(1, 22)
         ins.append(''.join(rng.choice(BIAS) + (' ' if rng.random() < 0.7 else '') for _ in range(n)))
     ins += C02.inputs(ctx, ctx.n(800, 15000), ctx.n(300, 6000))
+    # deep nesting of every kind (no bound on the number of pending openers), balanced and with stray openers/closers
+    for op, cl in [('(', ')'), ('[', ']'), ('case ', ' end'), ('if ', ' end if'), ('for ', ' end loop'), ('begin ', ' end')]:
+        for d in ([5, 33, 65, 70, 130] if ctx.quick() else [5, 17, 33, 63, 64, 65, 66, 70, 100, 129, 150]):
+            ins.append('select ' + op * d + 'a' + cl * d)
+            ins.append('x ' + op * (d + 2) + 'a' + cl * d + ' y')
+            ins.append('x ' + op * d + 'a' + cl * (d + 2))
     for s in ins:
         oracle(ctx, s)
     ctx.samples += [short(s, 80) for s in ins[:3]]
